@@ -1,9 +1,87 @@
 import Driver.Loop
+import Midgard.Model.Numeric
 
-/-! Driver for C20: placeholder until the model is written. -/
+/-! Driver for C20: line protocol over `Midgard.Numeric` (see harness/c20.py). -/
 namespace Driver.C20
+open Midgard.Proto Midgard.Numeric Midgard.Generated.C20
+
+/-- `a,b;c,d` → rows -/
+def parseRows? (s : String) : Option (List (List Rat)) :=
+  if s = "[]" then some [] else (s.splitOn ";").mapM parseRats?
+
+def showRows (r : List (List Rat)) : String :=
+  if r.isEmpty then "[]" else ";".intercalate (r.map showRats)
+
+def showErr : Err → String
+  | .shape => "shape" | .window => "window" | .short => "short" | .unsorted => "unsorted"
+  | .below => "below" | .above => "above"
+
+def showSF (x : SF) : String := s!"{showBool x.neg} {showRat x.mag}"
+
+def parseSat? : List Rat → Option Sat
+  | [a, b, c, d] => some ⟨a, b, c, d⟩
+  | _ => none
+
+def showExc : Except Err (List (List Rat)) → String
+  | .ok r => "ok " ++ showRows r
+  | .error e => "err " ++ showErr e
 
 def handle : List String → Option String
+  | ["c20", "nunits"] => some (toString units.length ++ " " ++ toString poles.length)
+  | ["c20", "unit", a, b, p] => do
+    let p ← parseRat? p
+    match conv a b p with
+    | none => pure "unknown"
+    | some none => pure "dim"
+    | some (some q) => pure ("ok " ++ showRat q)
+  | ["c20", "rad2dms", p, n, m] => do
+    let p ← parseRat? p; let n ← parseBool? n; let m ← parseRat? m
+    let (d, mi, s) := radToDms p ⟨n, m⟩
+    pure s!"{showSF d} {showRat mi} {showRat s}"
+  | ["c20", "deg2dms", p, n, m] => do
+    let p ← parseRat? p; let n ← parseBool? n; let m ← parseRat? m
+    let (d, mi, s) := degToDms p ⟨n, m⟩
+    pure s!"{showSF d} {showRat mi} {showRat s}"
+  | ["c20", "dms2rad", p, n, m, mi, s] => do
+    let p ← parseRat? p; let n ← parseBool? n; let m ← parseRat? m
+    let mi ← parseRat? mi; let s ← parseRat? s
+    pure (showSF (dmsToRad p ⟨n, m⟩ mi s))
+  | ["c20", "dms2deg", p, n, m, mi, s] => do
+    let p ← parseRat? p; let n ← parseBool? n; let m ← parseRat? m
+    let mi ← parseRat? mi; let s ← parseRat? s
+    pure (showSF (dmsToDeg p ⟨n, m⟩ mi s))
+  | ["c20", "hms2rad", p, n, m, mi, s] => do
+    let p ← parseRat? p; let n ← parseBool? n; let m ← parseRat? m
+    let mi ← parseRat? mi; let s ← parseRat? s
+    match hmsToRad p ⟨n, m⟩ mi s with
+    | none => pure "neg-hours"
+    | some r => pure (showSF r)
+  | ["c20", "lagrange", w, be, srt, s, dim, xs, rows, xnew] => do
+    let w ← w.toNat?; let be ← parseBool? be; let srt ← parseBool? srt
+    let s ← parseRat? s; let dim ← dim.toNat?
+    let xs ← parseRats? xs; let rows ← parseRows? rows; let xnew ← parseRats? xnew
+    pure (showExc (lagrange xs rows dim w be srt s xnew))
+  | ["c20", "linear", dim, xs, rows, xnew] => do
+    let dim ← dim.toNat?
+    let xs ← parseRats? xs; let rows ← parseRows? rows; let xnew ← parseRats? xnew
+    pure (showExc (linear xs rows dim xnew))
+  | ["c20", "dops", sats] => do
+    let rows ← parseRows? sats
+    let sats ← rows.mapM parseSat?
+    match computeDops sats with
+    | none => pure "singular"
+    | some d => pure s!"ok {showRat d.gdop2} {showRat d.pdop2} {showRat d.tdop2} {showRat d.hdop2} {showRat d.vdop2}"
+  | ["c20", "plate", model, plate, p, x, y, z] => do
+    let p ← parseRat? p; let x ← parseRat? x; let y ← parseRat? y; let z ← parseRat? z
+    match plateVelocity model plate p ⟨x, y, z⟩ with
+    | none => pure "unknown"
+    | some v => pure s!"ok {showRat v.x} {showRat v.y} {showRat v.z}"
+  | ["c20", "linreg", rej, f, it, xs, ys] => do
+    let rej ← parseBool? rej; let f ← parseRat? f; let it ← it.toNat?
+    let xs ← parseRats? xs; let ys ← parseRats? ys
+    match linreg xs ys rej f it with
+    | none => pure "degenerate"
+    | some (fit, kx, _) => pure s!"ok {showRat fit.icpt} {showRat fit.slope} {showRats kx}"
   | _ => none
 
 end Driver.C20
